@@ -129,8 +129,12 @@ def run(prog, chk):
     chk.ob("R3.seek-arithmetic-and-readahead-dropped", "SFTPFile.seek", bad is None, sk.loc,
            "SET/CUR/END x two starting positions%s" % ("" if bad is None else "; first failing: " + bad))
     tl = prog.method("SFTPFile", "tell")
-    rt = [unparse(r.value) for r in walk_no_defs(tl.node) if isinstance(r, ast.Return)]
-    chk.ob("R3.tell-is-logical-position", "%s.tell" % tl.cls.name, rt == ["self._pos"], tl.loc, "returns %s" % rt)
+    rvs = [r.value for r in walk_no_defs(tl.node) if isinstance(r, ast.Return) and r.value is not None]
+    rt = [unparse(v) for v in rvs]
+    # the logical position (what the caller has consumed / produced), never the transport position; whether buffered
+    # writes are counted is R4.tell-counts-buffered-writes
+    okt = bool(rvs) and all(any(unparse(x) == "self._pos" for x in ast.walk(v)) and not any(unparse(x) == "self._realpos" for x in ast.walk(v)) for v in rvs)
+    chk.ob("R3.tell-is-logical-position", "%s.tell" % tl.cls.name, okt, tl.loc, "returns %s" % rt)
     chk.ob("R3.seekable", "SFTPFile.seekable", [unparse(r.value) for r in walk_no_defs(prog.method("SFTPFile", "seekable").node) if isinstance(r, ast.Return)] == ["True"],
            prog.method("SFTPFile", "seekable").loc, "SFTPFile is seekable")
 
@@ -239,12 +243,39 @@ def run(prog, chk):
                "seek exactly when the requested offset differs from the tracked one, advance by the bytes moved, forget on error%s%s" % (
                    ", never seek in append mode" if app else "", "" if bad is None else "; first failing: " + bad))
 
+    # ---- R4b: tell() is the logical position, buffered writes included --------------------------------------------------
+    # write() parks data in the write buffer without advancing _pos (only _write_all advances it), so either write()
+    # advances _pos on its buffered path or tell() adds what is parked.  Neither -> tell() lags behind a local file's.
+    wr_f = bf_method(prog, "write")
+    tl_f = bf_method(prog, "tell")
+    parks = [c for c in walk_no_defs(wr_f.node) if M.is_call(c, name="self._wbuffer.write")]
+    chk.floor("R4", "writes into the write buffer in BufferedFile.write", len(parks), 1)
+    adv_in_write = any(isinstance(x, (ast.AugAssign, ast.Assign)) and unparse(x.targets[0] if isinstance(x, ast.Assign) else x.target) == "self._pos" for x in walk_no_defs(wr_f.node))
+    rets = [r for r in walk_no_defs(tl_f.node) if isinstance(r, ast.Return) and r.value is not None]
+    counts_buffer = bool(rets) and all(any(isinstance(x, ast.Attribute) and x.attr == "_wbuffer" for x in ast.walk(r.value)) and
+                                       any(isinstance(x, ast.Attribute) and unparse(x) == "self._pos" for x in ast.walk(r.value)) for r in rets)
+    flushes_first = any(M.is_call(c, name="self.flush") for c in walk_no_defs(tl_f.node))
+    chk.ob("R4.tell-counts-buffered-writes", "BufferedFile.tell", adv_in_write or counts_buffer or flushes_first, tl_f.loc,
+           "tell() returns %s; write() %s _pos on its buffered path - %s" % (
+               [unparse(r.value) for r in rets], "advances" if adv_in_write else "does not advance",
+               "ok" if (adv_in_write or counts_buffer or flushes_first) else "bytes accepted by write() but not yet flushed are missing from tell() (a local file counts them)"))
+
     # ---- R6 truncate ------------------------------------------------------------------------------------------------
     tr = prog.method("SFTPFile", "truncate")
     w = [(unparse(s.targets[0]), unparse(s.value)) for s in walk_no_defs(tr.node) if isinstance(s, ast.Assign) and unparse(s.targets[0]).startswith("attr.")]
     rq = [c for c in walk_no_defs(tr.node) if M.is_call(c, name="self.sftp._request")]
     chk.ob("R6.truncate-sets-size-only", "SFTPFile.truncate", w == [("attr.st_size", tr.params()[1])] and len(rq) == 1 and
            [unparse(a) for a in rq[0].args] == ["CMD_FSETSTAT", "self.handle", "attr"], tr.loc, "sets %s and sends FSETSTAT(handle, attr)" % w)
+    ftr = Flow(prog, tr, implicit=False)
+    sz = tr.params()[1]
+    wn = [n for n in ftr.nodes(lambda n: n.kind == "stmt" and isinstance(n.ast, ast.Assign) and unparse(n.ast.targets[0]) == "attr.st_size")]
+    okp = len(wn) == 1 and all(dn.kind == "entry" for (dn, rhs) in ftr.defs(sz, wn[0]))
+    chk.ob("R6.truncate-size-is-the-callers", "SFTPFile.truncate", okp, tr.loc,
+           "the value stored in attr.st_size is the parameter %s as passed in (a rebinding such as `size or self.tell()` turns truncate(0) into something else)" % sz)
+
+
+def bf_method(prog, name):
+    return prog.method("BufferedFile", name)
 
 
 def pos_before(log, tell0, offset):
